@@ -264,6 +264,38 @@ Fixpoint runf (chk : bool) (cfg : pid -> pconf) (s : state) (l : list label) : o
     end
   end.
 
+(* ---------------------------------------------------------------- the clean-up in a semaphore's lock directory
+
+   The slot files of SemLock(lock_file, n) are lock_file + str(i) (`<name>.lck0`, `<name>.lck1` ...): for every entry of
+   such a directory `name.endswith(suffix)` is false, so a cleanup_lockdir pass is time.time(), os.listdir and nothing
+   else - no getmtime, no unlink, whatever the age of the files.  (cache.lock_dir holds the tile locks and the
+   http.concurrent_requests semaphores together; in the state of this model path k is then the k-th slot file.) *)
+Definition step_clean_sem (cfg : pid -> pconf) (s : state) (p : pid) (o : op) : option (state * res * event) :=
+  match st_pc (ps s p), o with
+  | Idle, OTime t => Some (set_pc s p (CScan (t - p_timeout (cfg p))%Z), RUnit, ENone)
+  | CScan e, OList => Some (set_pc s p Idle, RList false, ENone)
+  | _, _ => None
+  end.
+
+(* semaphore users, clean-up processes and faults together *)
+Definition steps (chk : bool) (cfg : pid -> pconf) (s : state) (p : pid) (o : op) : option (state * res * event) :=
+  if is_clean (cfg p) then step_clean_sem cfg s p o
+  else match o with
+       | OFlockErr => step_fault cfg s p o
+       | ORemoveErr => step_fault cfg s p o
+       | _ => step chk cfg s p o
+       end.
+
+Fixpoint runs (chk : bool) (cfg : pid -> pconf) (s : state) (l : list label) : option state :=
+  match l with
+  | [] => Some s
+  | (p, o) :: r =>
+    match steps chk cfg s p o with
+    | Some (s', _, _) => runs chk cfg s' r
+    | None => None
+    end
+  end.
+
 (* no clean-up of the schedule got as far as unlinking *)
 Definition no_unlink (l : list label) : Prop := forall p, ~ In (p, OUnlink) l.
 
@@ -492,10 +524,24 @@ Fixpoint first_bad (chk : bool) (cfg : pid -> pconf) (s : state) (tr : list obs)
     end
   end.
 
+(* replay of an observed trace of semaphore users and clean-up processes that share the lock directory *)
+Fixpoint first_bad_sem (chk : bool) (cfg : pid -> pconf) (s : state) (tr : list obs) (n : nat) : option nat :=
+  match tr with
+  | [] => None
+  | (p, o, r, e) :: t =>
+    match steps chk cfg s p o with
+    | Some (s', r', e') => if res_eqb r r' && event_eqb e e' then first_bad_sem chk cfg s' t (S n) else Some n
+    | None => Some n
+    end
+  end.
+
 Definition cfg_of (l : list pconf) (p : pid) : pconf := nth p l (mk_pconf (KFile false) 0).
 
 Definition trace_ok (chk : bool) (l : list pconf) (tr : list obs) : bool :=
   match first_bad chk (cfg_of l) init tr 0 with None => true | Some _ => false end.
+
+Definition sem_trace_ok (chk : bool) (l : list pconf) (tr : list obs) : bool :=
+  match first_bad_sem chk (cfg_of l) init tr 0 with None => true | Some _ => false end.
 
 (* faults change no clock and no modification time *)
 Definition tstepf (chk : bool) (cfg : pid -> pconf) (ts : tstate) (p : pid) (o : op) : option tstate :=
